@@ -318,3 +318,12 @@ func VerifC12Conditions() {
 		vrt.Cover("runtime-error")
 	}
 }
+
+// VerifC12Cross: A op B for every pairing of operand classes against the same computation with
+// each operand first bound to a variable (left first, as evaluation order demands).
+func VerifC12Cross() {
+	t := NewTwin()
+	a, b, op := t.G.Cross()
+	vrt.Note("e", Src(bin(op, a, b)))
+	t.Compare(bin(op, a, b), true, blk(asg("t", a), asg("u", b), bin(op, nm("t"), nm("u"))), true, "operands-via-variables")
+}
